@@ -19,7 +19,11 @@ INPLACE_FUNCS = {"numpy.random.shuffle": [0], "random.shuffle": [0], "numpy.fill
                  "numpy.putmask": [0], "numpy.ndarray.sort": [0], "numpy.ndarray.fill": [0], "heapq.heapify": [0], "heapq.heappush": [0], "bisect.insort": [0]}
 ARRAY_MUTATORS = {"fill", "put", "resize", "sort", "partition", "itemset", "setflags", "setfield", "byteswap_inplace", "drop_duplicates_inplace"}
 ALL_MUTATORS = set(MUTATORS) | ARRAY_MUTATORS
-RNG_ALLOWED = {"numpy.random.rand", "numpy.random.choice", "numpy.random.shuffle"}
+# module-level functions of numpy.random draw from the global legacy RandomState (reproducible under numpy.random.seed); what is *not* allowed
+# is re-seeding it, replacing its state, or drawing from a private generator
+_LEGACY_DRAWS = ("rand", "randn", "randint", "random", "random_sample", "ranf", "sample", "choice", "shuffle", "permutation", "uniform", "normal", "exponential",
+                 "poisson", "binomial", "multinomial", "geometric", "zipf", "pareto", "gamma", "beta", "bytes", "standard_normal", "lognormal", "power")
+RNG_ALLOWED = {"numpy.random." + n for n in _LEGACY_DRAWS}
 
 
 class Effects:
